@@ -946,17 +946,23 @@ class ExecutionController:
         """
 
         early_plan = []
+        early_plan_ids = set()
 
         id_to_stmt = phase.id_to_stmt
 
-        def add_with_deps(stmt):
-            stmt_id = stmt.id
+        def begin(stmt_id, stack, on_stack):
+            # Returns whether *stmt_id* (still) needs to be planned.
             if stmt_id in self.executed_ids:
                 # Already done, no need to think more.
-                return
+                return False
 
-            if stmt_id in early_plan:
-                return
+            if stmt_id in early_plan_ids:
+                return False
+
+            if stmt_id in on_stack:
+                raise RuntimeError(
+                        "circular dependency involving statement '%s'"
+                        % stmt_id)
 
             if stmt_id in self.plan_id_set:
                 # Already in plan, but maybe not early enough: move it (and,
@@ -964,15 +970,34 @@ class ExecutionController:
                 self.plan.remove(stmt_id)
                 self.plan_id_set.remove(stmt_id)
 
-            for dep_id in stmt.depends_on:
-                add_with_deps(id_to_stmt[dep_id])
+            stack.append((stmt_id, iter(id_to_stmt[stmt_id].depends_on)))
+            on_stack.add(stmt_id)
+            return True
 
-            assert stmt_id not in self.plan_id_set
+        def add_with_deps(stmt_id):
+            # Depth-first, dependencies before dependents. (Not recursive:
+            # dependency chains can be longer than the recursion limit.)
+            stack = []
+            on_stack = set()
+            begin(stmt_id, stack, on_stack)
 
-            early_plan.append(stmt_id)
+            while stack:
+                stmt_id, remaining_dep_ids = stack[-1]
+
+                for dep_id in remaining_dep_ids:
+                    if begin(dep_id, stack, on_stack):
+                        break
+                else:
+                    stack.pop()
+                    on_stack.remove(stmt_id)
+
+                    assert stmt_id not in self.plan_id_set
+
+                    early_plan.append(stmt_id)
+                    early_plan_ids.add(stmt_id)
 
         for stmt_id in execute_ids:
-            add_with_deps(id_to_stmt[stmt_id])
+            add_with_deps(stmt_id)
 
         self.plan = early_plan + self.plan
         self.plan_id_set.update(early_plan)
